@@ -94,6 +94,28 @@ def machine_spec(draw, profile="general", tier="quick"):
             pipes[k]["group"] = 0
     nsteps = draw(st.integers(3, 25 if tier == "quick" else 60))
     steps = []
+    if profile == "branches":
+        # several containers of ONE pipeline (independent branches) suspended at overlapping times with different write-out lengths
+        pools, multi = 1, True
+        k = draw(st.integers(2, 3))
+        pipes = []
+        for _ in range(k):
+            b = draw(pipe_spec("general"))
+            while len(b["ops"]) < 3:
+                b["ops"].append([draw(seg_spec("general"))])
+            b["group"] = 0
+            pipes.append(b)
+        pipes += [draw(pipe_spec("general"))]
+        npipes = len(pipes)
+        cpus = max(cpus, k + 1)
+        ram = draw(st.sampled_from([100, 64, 256, 30]))
+        tps = draw(st.sampled_from([10, 5, 20, 2]))
+        fr = draw(st.permutations([0.05, 0.15, 0.3]))
+        steps.append({"sus": [], "asg": [[0, i, 0, ["abs", 1], ["cap", fr[i]], None] for i in range(k)], "idle": 0})
+        for _ in range(draw(st.integers(3, 14))):
+            steps.append({"sus": [[0, j, "ok"] for j in range(draw(st.integers(1, k)))],
+                          "asg": [[0, draw(st.integers(0, npipes - 1)), 0, ["abs", 1], ["cap", 0.05], None]] if draw(st.integers(0, 3)) == 0 else [],
+                          "idle": 0})
     if profile == "twins":
         # identical containers started together: they reach operator boundaries, and finish suspensions, in the same ticks
         pools, multi = 1, True
